@@ -157,6 +157,9 @@ class SimProcess:
     def sentinel(self):
         if self._sentinel is None:
             raise ValueError("process not started")
+        w = _w.W
+        if w is not None and w.verdict is None and w.cur is not None:
+            w.sched_point()       # reading a kernel handle: lets a loop over several processes be interleaved
         return self._sentinel
 
     @property
